@@ -103,7 +103,9 @@ def oracle(case):
                 elif channel == "Path":
                     las = attempt(lasio.read, pathlib.Path(path), **kw)
                 else:  # open text file object
-                    fobj = open(path, "r", encoding=info["enc"])  # the caller decodes: BOM handled by utf-8-sig
+                    # the caller decodes (BOM handled by utf-8-sig); "fileobj-rawnl": opened with newline="" so that
+                    # the line ends reach lasio untranslated (Python still splits lines at \r, \n and \r\n)
+                    fobj = open(path, "r", encoding=info["enc"], newline=("" if channel == "fileobj-rawnl" else None))
                     if channel == "fileobj-peeked":
                         fobj.readline()  # the caller has looked at the first line: the file is not at position 0
                     try:
@@ -176,7 +178,7 @@ def file_cases(draw):
                     ln["text"] = "no" + exotic + "te " + ln["text"]
     variants = []
     for _ in range(draw(st.integers(2, 5))):
-        ch = draw(st.sampled_from(["path", "Path", "fileobj", "stringio", "string", "stringio-written", "fileobj-peeked"]))
+        ch = draw(st.sampled_from(["path", "Path", "fileobj", "stringio", "string", "stringio-written", "fileobj-peeked", "fileobj-rawnl"]))
         variants.append([draw(st.sampled_from(codecs)), draw(st.sampled_from(["LF", "CRLF", "CR"])), ch])
     return {"spec": spec, "variants": variants, "mnemonic_case": draw(st.sampled_from(["upper", "preserve", "lower"]))}
 
@@ -228,6 +230,14 @@ def oracle_history(case):
                     out.fail("history-read-raises|" + las.bucket, "step %d %r: %s\n%s" % (step, op, las, texts[ti]))
                     break
                 c = canonical(las)
+                want = case["texts"][ti].get("expect_data")
+                if want is not None:
+                    # state kept between reads (even between cases of one process) shows against a fixed expectation
+                    got = [[float(x) for x in cv.data] if np.asarray(cv.data).dtype.kind == "f" else [str(x) for x in cv.data] for cv in las.curves]
+                    if got != want:
+                        out.fail("read-depends-on-earlier-reads|data", "step %d: data read as %r, expected %r after %r\n%s"
+                                 % (step, got, want, case["ops"][:step], texts[ti]))
+                        break
                 if ti in first:
                     d = canon.diff(c, first[ti], names=("read#%d" % step, "first-read"))
                     if d:
@@ -314,7 +324,23 @@ OP = st.one_of(
 @st.composite
 def history_cases(draw):
     texts = [draw(specs(WIDE)) for _ in range(draw(st.integers(2, 3)))]
+    special = False
+    if draw(st.integers(0, 2)) == 0:
+        # two files that exercise the reader's substitution tables (module-level state): a comma-delimited one and one
+        # with decimal commas; reading either must not change how the other, or any later file, is read
+        cv = [("DEPT", "M", "", "d"), ("GR", "", "", "g"), ("RHOB", "", "", "r")]
+        comma = lastext.simple_spec(cv, [["1", "2.5", "3"], ["2", "3.5", "4"]], dlm="COMMA")
+        for ln in comma["sections"][-1]["lines"]:
+            ln["seps"] = [",", ","]
+        decimal = lastext.simple_spec(cv, [["1", "2,5", "3,25"], ["2", "3,5", "4,75"]])
+        comma["expect_data"] = [[1.0, 2.0], [2.5, 3.5], [3.0, 4.0]]
+        decimal["expect_data"] = [[1.0, 2.0], [2.5, 3.5], [3.25, 4.75]]
+        texts = texts[:1] + draw(st.permutations([comma, decimal]))
+        special = True
     ops = draw(st.lists(OP, min_size=4, max_size=14))
+    if special:
+        ch = st.sampled_from(["stringio", "string", "path"])
+        ops += [["read", k, draw(ch)] for k in draw(st.permutations([1, 2, 1, 2]))]
     return {"texts": texts, "ops": ops}
 
 
